@@ -9,7 +9,7 @@ import networkx as nx
 
 VAL = {'C': 4, 'N': 3, 'O': 2, 'S': 2, 'P': 3, 'F': 1, 'Cl': 1, 'Br': 1}
 SYM = {0: '.', 1: '', 2: '=', 3: '#', 4: '$', 1.5: ''}
-DSYM = {**SYM, 1.5: ':'}     # in front of a bonding descriptor the aromatic symbol is written out
+DSYM = {**SYM, 1.5: ':', 'dash': '-'}     # ('dash': a single bond written with its explicit symbol)     # in front of a bonding descriptor the aromatic symbol is written out
 
 
 def rnd_mol(rng, n, aromatic_p=0.3, charged_p=0.1, pyrrole_p=0.0, biaryl_p=0.0, thio_p=0.0, hetero_p=0.0):
@@ -288,17 +288,26 @@ def render_base(rng, base, names, virtual=0):
                     rings[frozenset((u, v))] = ringid[0]
         dfs(start)
         opened = set()
+        if rings and rng.random() < 0.2:
+            # some ring bonds of the base graph get two-digit markers ('%10', '%11', ...)
+            for e in list(rings):
+                if rng.random() < 0.6:
+                    rings[e] += 9
 
         def emit(u):
             order_of_appearance.append(u)
             s = '[#%s]' % names[u]
+            marks = []
             for e, r in rings.items():
                 if u in e:
                     o = base.edges[tuple(e)]['order']
                     first = r not in opened
                     if first:
                         opened.add(r)
-                    s += (SYM[o] if first else '') + (str(r) if r < 10 else '%%%d' % r)
+                    marks.append((SYM[o] if first else '') + (str(r) if r < 10 else '%%%d' % r))
+            # bare single digits first: a digit directly behind '%nn' would be read as part of that marker
+            marks.sort(key=lambda m: not m[0].isdigit())
+            s += ''.join(marks)
             if maybe_virtual():
                 s += '.([#V])'           # the bond symbol stands in front of the parenthesis
             kids = tree[u]
@@ -348,6 +357,11 @@ def cut_description(rng, g, nfrag, kinds=('$', '><'), share_p=0.0, label_p=1.0, 
         if arom_sym_p and o == 1.5 and not g.edges[a, b].get('pyrrole_ring') \
                 and not (g.nodes[a].get('kekule') or g.nodes[b].get('kekule')) and rng.random() < arom_sym_p:
             oo = 1.5        # the cut aromatic bond written with its symbol on both sides: 'c:[$]'
+        oa = ob = oo
+        if arom_sym_p and oo == 1:
+            # a single-bond cut written with the explicit symbol on either side (independently): 'CC-[$a]'
+            oa = 'dash' if rng.random() < 0.4 else 1
+            ob = 'dash' if rng.random() < 0.4 else 1
         if rng.random() < share_p:
             # fragment of `a` gets a copy b' of b, bonded to a; b' and b carry the '!' pair
             bp = len(ext)
@@ -364,11 +378,11 @@ def cut_description(rng, g, nfrag, kinds=('$', '><'), share_p=0.0, label_p=1.0, 
             else:
                 shared_kinds.append('aliphatic')
         elif rng.choice(kinds) == '$':
-            desc[a].append(('$' + L, oo))
-            desc[b].append(('$' + L, oo))
+            desc[a].append(('$' + L, oa))
+            desc[b].append(('$' + L, ob))
         else:
-            desc[a].append(('>' + L, oo))
-            desc[b].append(('<' + L, oo))
+            desc[a].append(('>' + L, oa))
+            desc[b].append(('<' + L, ob))
         fa, fb = part[a], part[b]
         if base.has_edge(fa, fb):
             base.edges[fa, fb]['order'] += 1
